@@ -155,11 +155,11 @@ package meta
 
 // ---- compilation entry points (C09): ASSUMED shape; the parser verdict is named by parses(pattern, flags) ----
 //@ trusted func Compile
-//@   ensures result1 == nil ==> result0 != nil && parses(pattern, 212) && !result0.longest && result0.pikevm != nil
+//@   ensures result1 == nil ==> result0 != nil && parses(pattern, 212) && !result0.longest && result0.pikevm != nil && fresh(result0)
 //@   ensures !parses(pattern, 212) ==> result1 != nil
 //@ trusted func CompileRegexp
 //@   requires re != nil
-//@   ensures result1 == nil ==> result0 != nil && !result0.longest && result0.pikevm != nil
+//@   ensures result1 == nil ==> result0 != nil && !result0.longest && result0.pikevm != nil && fresh(result0)
 // regexp/syntax bounds the height of every tree it returns by 1000; the default configuration must let the NFA
 // compiler descend that far, otherwise Compile rejects patterns regexp accepts
 //@ func DefaultConfig
